@@ -45,6 +45,11 @@ def persistStep (st : PersistDrv) (args : List String) : PersistDrv × String :=
     match openDisk st.disk with
     | .ok d => ({ disk := d, opened := true }, "ok")
     | .error _ => ({ st with opened := false }, "err MigrationNewer")
+  | ["torn", _] =>
+    -- a partial, never acknowledged append at the end of the log: reopening is the identity (`reopen_identity`)
+    match openDisk st.disk with
+    | .ok d => ({ disk := d, opened := true }, "ok")
+    | .error _ => (st, "err MigrationNewer")
   | ["reopen"] =>
     match openDisk st.disk with
     | .ok d => ({ disk := d, opened := true }, "ok")
